@@ -703,6 +703,25 @@ func checkPair(r *core.Rec, k *encKind, a, b any, desc bool, nullSign *int) {
 	if c == 2 { // no value order between the two (JSON of different kind / path): encodings must differ
 		if bc == 0 {
 			r.Violate(sig+"/distinct-values-same-encoding", fmt.Sprintf("different values have the same encoding: %s and %s", render(a), render(b)), det())
+			return
+		}
+		// ... and a JSON null sorts first among the scalars under its path in ascending keys ("null
+		// first"), hence last in descending keys ("reversed for descending fields")
+		if x, ok := a.(jsonVal); ok && desc {
+			y := b.(jsonVal)
+			// (between scalars of different non-null kinds there is no order of "the values themselves":
+			// the law is applied where the statement fixes the order - a JSON null against the others)
+			if strings.Join(x.Path, "\x1f") == strings.Join(y.Path, "\x1f") && len(x.Path) == len(y.Path) && (x.V == nil) != (y.V == nil) {
+				asc := signOf(bytes.Compare(k.enc(a, false), k.enc(b, false)))
+				r.Count("json_null_scalar_direction_reversal_pairs", 1)
+				if bc != -asc {
+					cls := "json-null-against-scalar"
+					d := det()
+					d["ascending_bytes_compare"] = asc
+					r.Violate("order/json/desc/"+cls+"/descending-order-is-not-the-reverse-of-the-ascending-order",
+						fmt.Sprintf("JSON scalars under one path: ascending keys compare %d, descending keys compare %d (must be the reverse) for a=%s b=%s", asc, bc, render(a), render(b)), d)
+				}
+			}
 		}
 		return
 	}
@@ -1009,7 +1028,7 @@ func encCases(seed uint64, tier string) []core.Case {
 
 func encFloors() []string {
 	fl := []string{"pool_pairs_exhaustive", "random_pairs", "tuples", "tuples_decided_by_later_component", "tuples_decided_by_docid", "tuples_decided_by_null", "key_roundtrips", "roundtrips",
-		"equal_value_pairs", "index_served_queries", "nontrivial_pairs", "order_served_by_index"}
+		"equal_value_pairs", "index_served_queries", "nontrivial_pairs", "order_served_by_index", "json_null_scalar_direction_reversal_pairs"}
 	for _, k := range encKinds {
 		for _, d := range []string{"asc", "desc"} {
 			fl = append(fl, "cell/"+k.name+"/"+d+"/null")
